@@ -32,6 +32,12 @@ pub struct Decoded {
 
 /// identity decode of the first image through the public API
 pub fn decode_first(file: &[u8]) -> Result<Decoded, String> {
+    decode_first_prefill(file, 0)
+}
+
+/// ... into a caller's buffer that holds `prefill` in every byte (the property quantifies over the caller's buffer contents too:
+/// for Adam7 images with sub-byte pixels the decoder stores pixel fields into it)
+pub fn decode_first_prefill(file: &[u8], prefill: u8) -> Result<Decoded, String> {
     let file = file.to_vec();
     match guarded(move || -> Result<Decoded, String> {
         let dec = png::Decoder::new(Cursor::new(file));
@@ -47,7 +53,7 @@ pub fn decode_first(file: &[u8]) -> Result<Decoded, String> {
         let buffer_size = reader.output_buffer_size();
         let line_size = reader.output_line_size(w);
         let (oc, od) = reader.output_color_type();
-        let mut buf = vec![0u8; buffer_size];
+        let mut buf = vec![prefill; buffer_size];
         let oi = reader.next_frame(&mut buf).map_err(|e| format!("next_frame: {}", e))?;
         buf.truncate(oi.buffer_size());
         Ok(Decoded {
@@ -117,6 +123,25 @@ pub fn judge(file: &[u8], want: &Img, interlace: bool, model_ans: Option<&str>) 
         let at = got.pixels.iter().zip(&want.pixels).position(|(a, b)| a != b).unwrap_or(got.pixels.len().min(want.pixels.len()));
         return Some(("oracle", format!("pixels/{}", tag), format!(
             "decoded pixels differ from the specification's reconstruction at byte {} (row {}, byte {} of the row)", at, at / rb.max(1), at % rb.max(1))));
+    }
+    if interlace && want.bits_pp() < 8 {
+        // a buffer that is not zeroed: every pixel bit is the specification's; only the padding bits behind the last pixel of a
+        // row may keep what the buffer held (C15 states exactly which bits are written)
+        match decode_first_prefill(file, 0xFF) {
+            Err(e) => return Some(("oracle", format!("decode-error/{}/prefilled", tag), format!("well-formed file rejected when the caller's buffer is not zeroed: {}", e))),
+            Ok(d2) => {
+                let used = (want.w as usize * want.bits_pp()) % 8;
+                let ok = d2.pixels.len() == want.pixels.len() && d2.pixels.chunks(rb.max(1)).zip(want.pixels.chunks(rb.max(1))).all(|(a, b)| {
+                    a.iter().zip(b).enumerate().all(|(i, (x, y))| {
+                        let mask = if i + 1 == rb && used != 0 { 0xFFu8 << (8 - used) } else { 0xFF };
+                        x & mask == y & mask
+                    })
+                });
+                if !ok {
+                    return Some(("oracle", format!("pixels/{}/prefilled", tag), "decoded into a buffer pre-filled with 0xFF the pixel bits differ from the specification's reconstruction (Adam7, sub-byte pixels)".to_string()));
+                }
+            }
+        }
     }
     if let Some(ans) = model_ans {
         let want_ans = format!("ok {} {} {} {} {} 1 {}:{}:{}:{:016x}", got.w, got.h, got.color, got.depth, got.interlaced as u8,
@@ -294,6 +319,27 @@ pub fn run(ctx: &mut Ctx) {
         }
         if i < 3 {
             ctx.rep.sample(describe(s, *nch, used).set("file_bytes", J::i(files[i].len() as u64)));
+        }
+    }
+    // one image whose decoded size exceeds the default 64 MiB of `Limits` (the caller's frame buffer is not counted against the
+    // limit: only row-sized buffers are): 65536 x 8200, 1 bit, 67 174 400 bytes, a few sparse non-zero rows.  Oracle only (the
+    // list-based model is not run on 64 MiB).
+    {
+        let mut r = rng.fork(3_000_000);
+        let (w, h) = (65536u32, 8200u32);
+        let rb = (w / 8) as usize;
+        let mut pixels = vec![0u8; rb * h as usize];
+        for _ in 0..64 {
+            let at = r.usize(0, pixels.len() - 1);
+            pixels[at] = r.range(1, 255) as u8;
+        }
+        let s = Still { img: Img { color: 0, depth: 1, w, h, pixels }, interlace: false, filters: Filters::Uniform(if r.bool() { 0 } else { 2 }), deflater: Deflater::Level(1), split: Split::Fixed(32 << 10) };
+        let (cs, _) = still_chunks(&s, &mut r);
+        let file = serialize(&cs);
+        ctx.rep.eval(true, fnv64(&file));
+        ctx.rep.count("file size", "decoded image > 64 MiB (default Limits)");
+        if let Some((kind, class, what)) = judge(&file, &s.img, false, None) {
+            ctx.rep.violation(kind, &format!("{}/larger-than-default-limit", class), &what, J::obj().set("what", J::s("65536x8200 1-bit image, default Limits")).set("file_bytes", J::i(file.len() as u64)));
         }
     }
     #[cfg(png_verif)]
